@@ -21,6 +21,9 @@ CLAIMS = {
  "C19": dict(design="5/C19", tech=E1 + "; symbolic id-membership bits",
    text="Every suite tree up to a node/depth bound (pre-order opcode lists; 4 leaf kinds incl. duplicate ids, 4 suite kinds, empty suites) is built and iterate_tests / sorted_tests / filter_by_ids (ids as a container with symbolic membership bits) / TestProgram --list and --load-list (in-process) are compared with reference flatten, sort and filter written from the statement; exhaustive within the bound.",
    note="TestProgram is driven in-process with a stub loader; a real temporary file carries the id list."),
+ "C18": dict(design="5/C18", tech=E1,
+   text="Routing: every rule set of <=3 (quick) / <=4 rules with distinct keys x fallback x event (route code, test id) is run on the real StreamResultRouter with identity tokens in all other fields; start/stop: every sequence of <=5/6 steps over {startTestRun, stopTestRun, add_rule +/- do_start_stop_run} x fallback mode; StreamToQueue push followed by consuming-rule pop (also nested) restores the original route code. Exhaustive within the bound.",
+   note="Finite alphabets of route codes/ids in E1; duplicate keys are documented as undefined and excluded."),
  "C16": dict(design="5/C16", tech=E1 + "; symbolic byte payloads, chunk sizes and offsets",
    text="Chunk reader on symbolic data bytes/chunk sizes/offsets (all values within length bound), real-file reader, chunk-independent decoding for every pair of cut positions over a class-representative alphabet, Content equality on symbolic bytes, ContentType MIME round trip over a token/value alphabet, snapshot semantics; exhaustive within the bounds.",
    note="Stream modelled by ModelStream (io.BytesIO contract); codecs are CPython's (text is a finite alphabet); open known finding F9 (charset containing a comma) is excluded by class."),
